@@ -14,8 +14,8 @@ from . import bind
 from . import findings
 
 VERIF = bind.VERIF
-MAX_VIOL_LINES = 20
-MAX_CONFIRM = 60
+MAX_VIOL_LINES = 12
+MAX_CONFIRM = 12
 MAX_HISTORY_CONFIRM = 3
 
 
